@@ -81,7 +81,24 @@ def run(ctx):
                 o.violated(rw, e.node, f"the caller's network is modified: {e.kind} on {e.path}")
         elif G is None:
             bad = [nm for nm in net_aliases if any(x.root == nm for x in rules.effects_on(prog, rw, [nm], scope=sc))]
-            o.violated(rw, sc.def_stmt(net_aliases[0]) if net_aliases else rw.node, "rewire works on the input graph itself (no .copy())") if net_aliases else \
+            rets_ = [n for n in astx.walk_fn(rw.node) if isinstance(n, ast.Return) and isinstance(n.value, ast.Name)]
+            fresh = None
+            if len(rets_) == 1 and sc.def_stmt(rets_[0].value.id) is not None:
+                dv = sc.def_stmt(rets_[0].value.id).value
+                if isinstance(dv, ast.Call) and prog.external(rw.module, dv.func) in ("networkx.Graph", "networkx.MultiGraph") and not dv.args:
+                    fresh = rets_[0].value.id
+            if net_aliases:
+                o.violated(rw, sc.def_stmt(net_aliases[0]), "rewire works on the input graph itself (no .copy())")
+            elif fresh is not None:
+                addn = [n for n in astx.walk_fn(rw.node) if isinstance(n, ast.Call) and isinstance(n.func, ast.Attribute) and n.func.attr in ("add_nodes_from", "add_node", "update")
+                        and txt(n.func.value) == fresh and "self._network" in txt(sc.resolve(n.args[0]) if n.args else n)]
+                adde = [n for n in astx.walk_fn(rw.node) if isinstance(n, ast.Call) and isinstance(n.func, ast.Attribute) and n.func.attr == "add_edges_from" and txt(n.func.value) == fresh]
+                if adde and not addn:
+                    o.violated(rw, adde[0], f"the working graph `{fresh}` is rebuilt from the EDGES of the input network: vertices that have no edge are not carried over "
+                                            "(networkx.set_node_attributes silently skips absent nodes), so the returned network has a smaller vertex set than the input")
+                else:
+                    o.undecided(f"working graph `{fresh}` is rebuilt by hand instead of self._network.G.copy(): not recognised", rw)
+            else:
                 o.undecided("working copy self._network.G.copy() not found", rw)
         else:
             o.holds(rw, sc.def_stmt(G), f"all graph mutators act on `{G} = self._network.G.copy()`")
@@ -253,15 +270,32 @@ def run(ctx):
         identity = []
         unknown = []
         ifs = [n for n in astx.walk_fn(su.node) if isinstance(n, ast.If)]
-        for i in ifs:
-            rejecting = any(isinstance(s, ast.Return) and isinstance(s.value, ast.Constant) and s.value.value is False for s in i.body)
-            disj = i.test.values if isinstance(i.test, ast.BoolOp) and isinstance(i.test.op, ast.Or) else [i.test]
-            for d in disj:
+
+        def _alternatives(test, pol):
+            # the ways in which `test` being `pol` can come about, each as (expr, polarity)
+            while isinstance(test, ast.UnaryOp) and isinstance(test.op, ast.Not):
+                test, pol = test.operand, not pol
+            if isinstance(test, ast.BoolOp) and ((isinstance(test.op, ast.Or) and pol) or (isinstance(test.op, ast.And) and not pol)):
+                out_ = []
+                for v_ in test.values:
+                    out_ += _alternatives(v_, pol)
+                return out_
+            return [(test, pol)]
+        # every `return False` is reached under path conditions; the innermost one is the failed test it answers
+        # (this reads `if bad: return False` and `if not bad: continue` + `return False` alike)
+        rejecting_tests = set()
+        for r_ in [n for n in astx.walk_fn(su.node) if isinstance(n, ast.Return) and isinstance(n.value, ast.Constant) and n.value.value is False]:
+            pcs_ = rules.path_conditions(upar, r_)
+            if not pcs_:
+                continue
+            test_, pol_ = pcs_[-1]
+            rejecting_tests.add(id(test_))
+            for d, dp in _alternatives(test_, pol_):
                 t = txt(d)
-                if isinstance(d, ast.Compare) and len(d.ops) == 1 and isinstance(d.ops[0], ast.Eq) and isinstance(d.left, ast.Name) and isinstance(d.comparators[0], ast.Name):
-                    if rejecting:
+                if isinstance(d, ast.Compare) and len(d.ops) == 1 and isinstance(d.ops[0], (ast.Eq, ast.NotEq)) and isinstance(d.left, ast.Name) and isinstance(d.comparators[0], ast.Name):
+                    if dp == isinstance(d.ops[0], ast.Eq):
                         eqs.append(frozenset((txt(d.left), txt(d.comparators[0]))))
-                elif isinstance(d, ast.Compare) and len(d.ops) == 1 and isinstance(d.ops[0], ast.Is) and isinstance(d.left, ast.Name) and isinstance(d.comparators[0], ast.Name):
+                elif isinstance(d, ast.Compare) and len(d.ops) == 1 and isinstance(d.ops[0], (ast.Is, ast.IsNot)) and isinstance(d.left, ast.Name) and isinstance(d.comparators[0], ast.Name):
                     identity.append((frozenset((txt(d.left), txt(d.comparators[0]))), d))
                 elif isinstance(d, ast.Call) and isinstance(d.func, ast.Attribute) and d.func.attr == "has_edge":
                     pass
@@ -269,8 +303,13 @@ def run(ctx):
                     pass
                 else:
                     unknown.append(t)
-            if not rejecting:
-                o6.violated(su, i, f"the failed test `{txt(i.test)}` does not end in `return False`: an unsuitable pairing is let through")
+        for i in ifs:
+            if id(i.test) not in rejecting_tests:
+                t = txt(i.test)
+                if "has_edge" in t or "len(" in t or ".keys()" in t or "MOTIF_IDS" in t or (isinstance(i.test, ast.Compare) and isinstance(i.test.ops[0], (ast.Eq, ast.NotEq))):
+                    o6.violated(su, i, f"the failed test `{txt(i.test)}` does not end in `return False`: an unsuitable pairing is let through")
+                else:
+                    o6.undecided(f"`if {t}` in is_edge_choice_suitable is not a rejecting test", su, i)
         if not has:
             o.undecided("no has_edge test of prospective edges found", su)
         else:
@@ -303,12 +342,22 @@ def run(ctx):
             o6.undecided("calls of swap_condition / is_edge_choice_suitable / mutations not found in rewire", rw)
         else:
             gi = par.stmt_of(swc[0])
-            ok = isinstance(gi, ast.If) and gi.test is swc[0] and all(par.branch_of(m, gi) == "body" for m in muts)
-            if ok:
-                o6.holds(rw, gi, f"all {len(muts)} graph mutations are inside `if self.swap_condition(...)`")
+            def _under_true_swap(m_):
+                for t_, p_ in rules.path_conditions(par, m_):
+                    tt = t_
+                    pp = p_
+                    while isinstance(tt, ast.UnaryOp) and isinstance(tt.op, ast.Not):
+                        tt, pp = tt.operand, not pp
+                    if tt is swc[0] or (isinstance(tt, ast.Name) and sc.def_stmt(tt.id) is not None and sc.def_stmt(tt.id).value is swc[0]):
+                        return pp
+                return None
+            verdicts = [_under_true_swap(m_) for m_ in muts]
+            if all(v_ is True for v_ in verdicts):
+                o6.holds(rw, gi, f"all {len(muts)} graph mutations run only when self.swap_condition(...) returned true")
+            elif any(v_ is False for v_ in verdicts):
+                o6.violated(rw, gi, "graph mutations are not confined to a true swap condition (the result is negated)")
             else:
-                neg = isinstance(gi, ast.If) and isinstance(gi.test, ast.UnaryOp)
-                o6.violated(rw, gi, "graph mutations are not confined to a true swap condition" + (" (the result is negated)" if neg else ""))
+                o6.violated(rw, gi, "graph mutations are not confined to a true swap condition")
             a_sw = [txt(a) for a in swc[0].args]
             a_su = [txt(a) for a in suc[0].args]
             if len(a_sw) == 5 and len(a_su) == 5 and a_sw[0] == a_su[0] == G and a_sw[1:3] == a_su[3:5] and a_sw[3:5] == a_su[1:3]:
